@@ -434,9 +434,12 @@ func polluteCodecPools(cs *drv.Case) {
 		rd := thrift.NewReaderSkipDecoder(bytes.NewReader(bad))
 		rd.Next(thrift.STRUCT)
 		rd.Release()
-		br := thrift.NewBufferReader(&doubles.NBReader{B: bad})
+		nb2 := &doubles.NBReader{B: bad}
+		br := thrift.NewBufferReader(nb2)
 		br.Skip(thrift.STRUCT)
-		br.ReadString()
+		if rest := bad[nb2.RI:]; len(rest) < 4 || (rest[0] == 0 && rest[1] == 0) {
+			br.ReadString() // (only when the length that happens to follow is small: ReadString allocates what is declared)
+		}
 		br.Recycle()
 		dr := bufiox.NewDefaultReader(&doubles.Source{Data: bad, Len: len(bad), ErrAt: len(bad), Err: doubles.ErrCustom, Sched: doubles.SchedSmall, R: r, Budget: 100000})
 		br2 := thrift.NewBufferReader(dr)
